@@ -113,6 +113,19 @@ static void do_asm(const Frame &q, Frame &a)
   std::string inc = get(q, "incpath");
   if (!inc.empty()) { o.include_paths.push_back(inc); }
 
+  if (flags.find('F') != std::string::npos)
+  {
+    // file based source (cwd is the worker's scratch directory)
+    o.srcfile = "input.asm";
+    FILE *f = fopen("input.asm", "wb");
+    if (f != NULL)
+    {
+      std::string s = get(q, "src");
+      fwrite(s.data(), 1, s.size(), f);
+      fclose(f);
+    }
+  }
+
   NvResult r;
   nv_assemble(get(q, "src"), o, r);
 
